@@ -835,3 +835,14 @@ MUTATIONS += [
     # the object-store listing with sizes reports directory placeholders (non-file entries) whose name is an id
     dict(id="C20-opendal-list-reports-non-files", prop="C20", file="crates/backend/src/opendal.rs", old="                if !metadata.is_file() {\n                    return None;\n                }\n                let name = entry.name();", new="                let name = entry.name();"),
 ]
+
+CK13 = "crates/core/src/commands/check.rs"
+MUTATIONS += [
+    # the tree walk of check ends silently at the first tree that cannot be loaded
+    dict(id="C05-tree-walk-stops-at-unreadable-tree", prop="C05", file=CK13, old="    while let Some(item) = tree_streamer.next().transpose()? {\n        let (path, tree) = item;", new="    while let Some(Ok((path, tree))) = tree_streamer.next() {"),
+]
+PR13 = "crates/core/src/commands/prune.rs"
+MUTATIONS += [
+    # marked packs are deleted one keep-delete period too early (comparison against now + keep_delete)
+    dict(id="C02-keep-delete-added-instead-of-subtracted", prop="C02", file=PR13, old="                                    if self.time.saturating_sub(keep_delete).timestamp()", new="                                    if self.time.saturating_add(keep_delete).timestamp()"),
+]
